@@ -8,10 +8,20 @@
   reference: key ↦ (present, flags, version list), a stack of marks, len/size defined by counting.
   `abs` reads a `Spec` off a `VLog`; `Inv` is the representation invariant (links well formed, counters exact, …).
 
-  NOT modelled, tied to the reference only by the differential (harness/c08): the tree node algorithms of art/ and rbt/
-  (lookup, insertion, node growth, prefix split, rebalancing, iterator seek), the arena's block arithmetic.
+  Two further layers are modelled and proved:
+  * the ORDERED-MAP layer: the key order is a strict total order and every iterator answer (plain / reverse / with flag-only
+    keys / snapshot) is exactly the in-range part of the map in strictly ascending (descending) key order, for every call
+    sequence (`iter_is_sorted_filter`, `snapIter_is_sorted_filter`, `key_order_strict_total`);
+  * the NODE-CONTAINER layer of the radix tree (Model/ArtNode.lean ↔ art_node.go node4/16/48/256: findChild, addChild with
+    growth, replaceChild, iteration order), driven directly in the differential through the `n*` ops
+    (`artnode_insert_lookup`, `artnode_addChild`, `artnode_replaceChild`).
+  STILL tied to the reference only by the differential (harness/c08): the PATH logic of the radix tree (recursiveInsert /
+  search / expandLeafIfNeeded / expandNode: prefix compression, the 20-byte in-node prefix with optimistic matching, in-place
+  leaves, lazy expansion), iterator seek with bounds inside the tree, the whole red-black tree (rotations, recolouring), the
+  arena's block arithmetic, the node allocator and its free lists.
 -/
-import ClientGoVerif.Proofs.VLogRun
+import ClientGoVerif.Proofs.MemBufOrder
+import ClientGoVerif.Proofs.ArtNode
 namespace CGV.Props.C08
 open CGV CGV.MemBuf
 
@@ -65,34 +75,23 @@ theorem release_keeps (m : VLog) (h : Nat) (op : Op)
       · rw [if_neg h1]; exact ⟨rfl, rfl, rfl, rfl⟩
   exact hs _ hrel.1 hrel.2.1 hrel.2.2.1 hrel.2.2.2
 
-/-- Cleanup restores the values: open a stage, run ANY calls that do not release / clean up that stage itself (nested
-    stages, checkpoints and reverts inside it are allowed), then clean the stage up — every key reads as it did when the
-    stage was opened. (Flags are deliberately not rolled back: `flags_survive_iff_persistent`.) -/
+/-- Cleanup restores the view: open a stage, run ANY calls that do not release / clean up that stage itself (writes incl.
+    same-length overwrites, deletes, flag-only updates, nested stages that are released or cleaned up, checkpoints and
+    reverts inside the stage, rejected oversized writes, limit changes), then clean the stage up.  Then for every key
+    * `Get` answers what it answered when the stage was opened, and
+    * `GetFlags` (which also tells whether the key is in the buffer) is given by the documented flag rule `flagsAfterUndo`:
+      flags are not rolled back; a key that got its only values inside the stage keeps exactly its persistent flags and
+      leaves the buffer when it has none.
+    Together with `len_size_exact` this fixes the whole view (keys, values, flags, Len, Size) after the cleanup. -/
 theorem cleanup_restores (m : VLog) (hi : Inv m) (body : List Op)
     (hk : KeepsStage (m.stages.length + 1) (abs (m.step .staging).1) body)
     (htop : ((m.step .staging).1.run body).1.stages.length = m.stages.length + 1) (k : Bytes) :
-    ((((m.step .staging).1.run body).1.step (.cleanup (m.stages.length + 1))).1.step (.get k)).2 = (m.step (.get k)).2 := by
-  obtain ⟨_, hi1⟩ := step_refines hi .staging
-  obtain ⟨hr, hi2⟩ := run_refines hi1 body
-  have hi3 := (step_refines hi2 (.cleanup (m.stages.length + 1))).2
-  have hf1 := stage_frame m
-  have hf2 := frame_run body _ hf1 (respects_of_keepsStage body _ hf1 hk)
-  have hrun : ((abs (m.step .staging).1).run body).1 = abs ((m.step .staging).1.run body).1 := by rw [hr]
-  rw [hrun] at hf2
-  generalize ((m.step .staging).1.run body).1 = m2 at *
-  obtain ⟨ext, hm, _⟩ := hf2.marks
-  have hm' : m2.stages = m.stages ++ [m.log.length] ++ ext := hm
-  have hext : ext = [] := by
-    have hl := htop
-    rw [hm'] at hl
-    simp only [List.length_append, List.length_cons, List.length_nil] at hl
-    exact List.eq_nil_of_length_eq_zero (by omega)
-  have hst : m2.stages = m.stages ++ [m.log.length] := by rw [hm', hext]; simp
-  apply get_eq_of_vers m _ hi hi3
-  rw [cleanup_top_refines m2 hi2 m.stages m.log.length hst]
-  have : ({ (abs m2).undoTo m.log.length with marks := m.stages } : Spec).vers k = ((abs m2).undoTo m.log.length).vers k := rfl
-  rw [this, vers_undoTo_abs]
-  exact hf2.vers k
+    ((((m.step .staging).1.run body).1.step (.cleanup (m.stages.length + 1))).1.step (.get k)).2 = (m.step (.get k)).2 ∧
+    ((((m.step .staging).1.run body).1.step (.cleanup (m.stages.length + 1))).1.step (.getFlags k)).2
+      = flagsAfterUndo (m.step (.get k)).2 (((m.step .staging).1.run body).1.step (.get k)).2
+          (((m.step .staging).1.run body).1.step (.getFlags k)).2 := by
+  obtain ⟨hi2, hi3, h3, hfr⟩ := cleanup_setup m hi body hk htop
+  exact ⟨undo_values_model m _ _ hi hi3 _ _ k (hfr k) h3, undo_flags_model m _ _ hi hi2 hi3 _ _ k (hfr k) h3⟩
 
 /-- Snapshot reads ignore staged data: once the first stage is open, whatever is written, staged, released, cleaned up or
     reverted above it, the snapshot getter answers what `Get` answered when the stage was opened. -/
@@ -227,63 +226,160 @@ theorem limits_exact (m : VLog) (k : Bytes) (v : Option Bytes) (ops : List Nat) 
 
 /-! ## checkpoints -/
 
-/-- The general form: for ANY mark `m.checkpoint` (whether or not it was handed out by `Checkpoint()`), if no version that
-    existed at the mark is overwritten in place (`Respects`: every `set` is `SafeSwap`), nothing pops below it and nothing
-    reverts below it, reverting to the mark restores every value.  `revert_restores_view` discharges `Respects` from the
-    remembered checkpoint. -/
-theorem revert_restores_view_partial (m : VLog) (hi : Inv m) (body : List Op)
-    (hr : Respects m.checkpoint m.stages (abs m) body)
-    (hok : ((m.run body).1.step (.revert m.checkpoint)).2 = .ok) (k : Bytes) :
-    (((m.run body).1.step (.revert m.checkpoint)).1.step (.get k)).2 = (m.step (.get k)).2 := by
-  obtain ⟨hrun, hi2⟩ := run_refines hi body
-  obtain ⟨_, hi3⟩ := step_refines hi2 (.revert m.checkpoint)
-  have hf1 : Frame m.checkpoint m.stages (fun k => (abs m).vers k) (abs m) :=
-    ⟨⟨[], by simp [abs], by simp⟩, Nat.le_refl _, fun k => oldPart_self _ _ (vers_abs_le m k)⟩
-  have hf2 := frame_run body _ hf1 hr
-  have hrun' : ((abs m).run body).1 = abs (m.run body).1 := by rw [hrun]
-  rw [hrun'] at hf2
-  have e3 := (step_refines hi3 (.get k)).1
-  have e0 := (step_refines hi (.get k)).1
-  have e3' : (((m.run body).1.step (.revert m.checkpoint)).1.step (.get k)).2
-      = ((abs ((m.run body).1.step (.revert m.checkpoint)).1).step (.get k)).2 := by rw [e3]
-  have e0' : (m.step (.get k)).2 = ((abs m).step (.get k)).2 := by rw [e0]
-  rw [e3', e0', get_out, get_out]
-  obtain ⟨hst, _, hlast⟩ := revert_ok_state (m.run body).1 m.checkpoint hok
-  have hcond : m.checkpoint ≤ (m.run body).1.log.length := hf2.clock
-  have hle : ∀ c ∈ (m.run body).1.stages, c ≤ m.checkpoint := by
-    intro c hc'
-    cases hl : (m.run body).1.stages.getLast? with
-    | none =>
-      have : (m.run body).1.stages = [] := by simpa using hl
-      rw [this] at hc'; simp at hc'
-    | some x =>
-      have hx : x ≤ m.checkpoint := hlast x hl
-      have := sorted_le_last _ hi2.stagesSorted x hl c hc'
-      omega
-  obtain ⟨ea, _⟩ := revertTo_refines hi2 m.checkpoint hcond (m.run body).1.stages hle hi2.stagesSorted
-  have ea' : abs ((m.run body).1.revertTo m.checkpoint) = (abs (m.run body).1).undoTo m.checkpoint := ea
-  rw [hst, ea', vers_undoTo_abs, hf2.vers k]
-
-/-- FULL-STRENGTH statement for checkpoints: take a checkpoint (`Checkpoint()`), run any calls that do not pop the stages
-    that were open at the checkpoint and do not revert below it, revert to the checkpoint — every key reads as it did at
-    the checkpoint.  In the unpatched tree this was false (a same-length overwrite after the checkpoint was applied in
-    place and not undone, DESIGN §6 S10: `set k aa; checkpoint; set k bb; revert; get k = bb`); with `lastCheckpoint`
-    (the newest checkpoint handed out guards the in-place swap in ART.trySwapValue / RBT.setValue) it holds. -/
+/-- RevertToCheckpoint restores the view (the statement of the property text, at full strength): take a checkpoint with
+    `Checkpoint()`, run ANY calls that do not pop the stages that were open at the checkpoint and do not revert below it
+    (in particular: same-length overwrites — the case that was NOT undone before the `lastCheckpoint` repair, DESIGN §6 S10 —,
+    different-length overwrites, deletes, flag-only updates, new nested stages that are released or cleaned up, later
+    checkpoints and reverts to them, writes rejected by the key / entry / buffer limits, limit changes), then revert to the
+    checkpoint.  Then for every key `Get` answers what it answered at the checkpoint and `GetFlags` follows the documented
+    flag rule (`flagsAfterUndo`, as for Cleanup).  With `len_size_exact`: the whole view. -/
 theorem revert_restores_view (m0 : VLog) (hi0 : Inv m0) (body : List Op)
     (hk : KeepsStage (m0.step .checkpoint).1.stages.length (abs (m0.step .checkpoint).1) body)
     (hn : NoRevertBelow (m0.step .checkpoint).1.checkpoint body)
     (hok : (((m0.step .checkpoint).1.run body).1.step (.revert (m0.step .checkpoint).1.checkpoint)).2 = .ok) (k : Bytes) :
     ((((m0.step .checkpoint).1.run body).1.step (.revert (m0.step .checkpoint).1.checkpoint)).1.step (.get k)).2
-      = ((m0.step .checkpoint).1.step (.get k)).2 := by
+      = ((m0.step .checkpoint).1.step (.get k)).2 ∧
+    ((((m0.step .checkpoint).1.run body).1.step (.revert (m0.step .checkpoint).1.checkpoint)).1.step (.getFlags k)).2
+      = flagsAfterUndo ((m0.step .checkpoint).1.step (.get k)).2 (((m0.step .checkpoint).1.run body).1.step (.get k)).2
+          (((m0.step .checkpoint).1.run body).1.step (.getFlags k)).2 := by
   have hi := (step_refines hi0 .checkpoint).2
-  have hg : (m0.step .checkpoint).1.checkpoint ≤ (abs (m0.step .checkpoint).1).guard := Nat.le_refl _
+  have hr := respects_after_checkpoint m0 body hk hn
   generalize (m0.step .checkpoint).1 = m at *
-  have hf1 : Frame m.checkpoint m.stages (fun k => (abs m).vers k) (abs m) :=
-    ⟨⟨[], by simp [abs], by simp⟩, Nat.le_refl _, fun k => oldPart_self _ _ (vers_abs_le m k)⟩
-  exact revert_restores_view_partial m hi body (respects_of_guard body _ hf1 hg hk hn) hok k
+  obtain ⟨hi2, hi3, h3, hfr⟩ := revert_setup m hi body hr hok
+  exact ⟨undo_values_model m _ _ hi hi3 _ _ k (hfr k) h3, undo_flags_model m _ _ hi hi2 hi3 _ _ k (hfr k) h3⟩
+
+/-- The same for an arbitrary log position used as a mark (`m.checkpoint` read off WITHOUT calling `Checkpoint()`, so nothing
+    remembers it).  The only hypothesis this needs beyond `revert_restores_view` is the `SafeSwap` part of `Respects`: no `set`
+    in the body overwrites in place a version that is not newer than the mark.  `revert_restores_view` has no such hypothesis
+    because `Checkpoint()` remembers the mark (`lastCheckpoint`) and `respects_after_checkpoint` derives `SafeSwap` from it;
+    this general form is what that derivation plugs into (it is a lemma about the mechanism, not a weaker property). -/
+theorem revert_to_mark_restores (m : VLog) (hi : Inv m) (body : List Op)
+    (hr : Respects m.checkpoint m.stages (abs m) body)
+    (hok : ((m.run body).1.step (.revert m.checkpoint)).2 = .ok) (k : Bytes) :
+    (((m.run body).1.step (.revert m.checkpoint)).1.step (.get k)).2 = (m.step (.get k)).2 ∧
+    (((m.run body).1.step (.revert m.checkpoint)).1.step (.getFlags k)).2
+      = flagsAfterUndo (m.step (.get k)).2 ((m.run body).1.step (.get k)).2 ((m.run body).1.step (.getFlags k)).2 := by
+  obtain ⟨hi2, hi3, h3, hfr⟩ := revert_setup m hi body hr hok
+  exact ⟨undo_values_model m _ _ hi hi3 _ _ k (hfr k) h3, undo_flags_model m _ _ hi hi2 hi3 _ _ k (hfr k) h3⟩
+
+/-- Len() and Size() are functions of the view, in every reachable state: Len = number of keys the flag-including iterator
+    yields, Size = Σ (key length + value length) over them (a flags-only key counts its key, a tombstone counts 0). -/
+theorem len_size_exact (ops : List Op) :
+    ∃ view, ((VLog.init.run ops).1.step (.iter [] [] false true)).2 = .items view ∧
+      ((VLog.init.run ops).1.step .len).2 = .num view.length ∧
+      ((VLog.init.run ops).1.step .size).2 = .num (Spec.sumInt itemSize view) :=
+  ⟨_, len_size_of_view (run_refines inv_init ops).2⟩
+
+/-- the S10 scenario and friends, computed on the mechanism model: in-place overwrite, nested stage, flag-only write and a
+    write rejected by the entry limit between a checkpoint and the revert -/
+example :
+    (VLog.init.run [.set [0x6b] [0xaa] [], .checkpoint, .set [0x6b] [0xbb] [], .staging, .set [0x6c] [1] [], .upd [0x6d] [4],
+        .release 1, .setLimits 2 100, .set [0x6b] [1, 2, 3] [], .revert 1, .get [0x6b], .get [0x6c], .getFlags [0x6d]]).2
+      = [.ok, .num 1, .ok, .num 1, .ok, .ok, .ok, .ok, .err .entryTooLarge, .ok, .val [0xaa], .notFound, .flags 2] := by
+  decide
+
+/-! ## iterator invalidation (ART's WriteSeqNo) -/
+
+/-- A `Set` that is applied (answer ok, or the buffer-limit error that is reported after the write) bumps the write
+    sequence number — so an iterator created before it, which remembers the old number, fails its check — and a `Set` that is
+    rejected (empty value, key too large, entry too large) leaves it alone, as do all read calls. -/
+theorem write_bumps_seq (q : VLog.Seq) (m : VLog) (k v : Bytes) (ops : List Nat) :
+    ((VLog.seqStep q m (.set k v ops)).write = q.write + 1 ↔
+      ((m.step (.set k v ops)).2 = .ok ∨ (m.step (.set k v ops)).2 = .err .txnTooLarge)) ∧
+    (VLog.seqStep q m (.get k)).write = q.write ∧ (VLog.seqStep q m (.iter k v false false)).write = q.write ∧
+    (VLog.seqStep q m (.snapGet k)).write = q.write := by
+  refine ⟨?_, rfl, rfl, rfl⟩
+  simp only [VLog.seqStep, VLog.step, VLog.write]
+  by_cases hv : v.isEmpty = true
+  · simp [hv]
+  · have hv' : v.isEmpty = false := by simpa using hv
+    by_cases hk : k.length > Gen.MemLimits.maxKeyLen
+    · simp [hv', hk]
+    · by_cases he : k.length + v.length > m.entryLimit
+      · simp [hv', hk, he, Spec.entryTooLarge]
+      · simp only [hv', hk, he, Bool.false_or, decide_false, Bool.false_eq_true, if_false, Spec.entryTooLarge]
+        constructor
+        · intro _
+          split
+          · exact Or.inr rfl
+          · exact Or.inl rfl
+        · intro _; trivial
+
+/-! ## the buffer as an ordered map: what the iterators yield -/
+
+/-- Iter / IterReverse / IterWithFlags / IterReverseWithFlags, after ANY sequence of calls: the answer is exactly the set of
+    keys of the map that lie in `[lo, hi)` (byte-wise order, empty bound = unbounded; `inRange_iff`) and carry a value (or
+    any key in the buffer when flag-only keys are asked for), each with the flags `GetFlags` and the value `Get` report, in
+    strictly ascending key order — the reverse iterators yield the same list backwards. -/
+theorem iter_is_sorted_filter (ops : List Op) (lo hi : Bytes) (wf : Bool) :
+    ∃ fwd, ((VLog.init.run ops).1.step (.iter lo hi false wf)).2 = .items fwd ∧
+      ((VLog.init.run ops).1.step (.iter lo hi true wf)).2 = .items fwd.reverse ∧
+      fwd.Pairwise (fun a b => Bytes.lt a.key b.key = true) ∧
+      ∀ it, it ∈ fwd ↔
+        (inRange lo hi it.key = true ∧ ((VLog.init.run ops).1.step (.getFlags it.key)).2 = .flags it.flags ∧
+          ((VLog.init.run ops).1.step (.get it.key)).2 = valueOut it.value ∧ (wf = true ∨ it.value.isSome = true)) := by
+  have hi' := (run_refines inv_init ops).2
+  obtain ⟨h1, h2⟩ := iter_sorted hi' lo hi wf
+  exact ⟨_, rfl, by show Out.items _ = _; rw [h2], h1, fun it => iter_mem hi' lo hi false wf it⟩
+
+/-- SnapshotIter / SnapshotIterReverse (and the GetSnapshot iterators), after ANY sequence of calls: exactly the in-range keys
+    for which the snapshot getter has a value, with that value, strictly ascending (reverse: backwards).  Combined with
+    `snapshot_ignores_staged`: the iteration shows the map as it was when stage 1 was opened. -/
+theorem snapIter_is_sorted_filter (ops : List Op) (lo hi : Bytes) :
+    ∃ fwd, ((VLog.init.run ops).1.step (.snapIter lo hi false)).2 = .items fwd ∧
+      ((VLog.init.run ops).1.step (.snapIter lo hi true)).2 = .items fwd.reverse ∧
+      fwd.Pairwise (fun a b => Bytes.lt a.key b.key = true) ∧
+      ∀ it, it ∈ fwd ↔
+        (inRange lo hi it.key = true ∧ it.flags = 0 ∧
+          ∃ v, it.value = some v ∧ ((VLog.init.run ops).1.step (.snapGet it.key)).2 = .val v) := by
+  have hi' := (run_refines inv_init ops).2
+  obtain ⟨h1, h2⟩ := snapIter_sorted hi' lo hi
+  exact ⟨_, rfl, by show Out.items _ = _; rw [h2], h1, fun it => snapIter_mem hi' lo hi false it⟩
+
+/-- the key order is a strict total order (the model of `bytes.Compare`) -/
+theorem key_order_strict_total (a b c : Bytes) :
+    Bytes.lt a a = false ∧ (Bytes.lt a b = true → Bytes.lt b c = true → Bytes.lt a c = true) ∧
+    (a ≠ b → Bytes.lt a b = false → Bytes.lt b a = true) :=
+  ⟨blt_irrefl a, blt_trans, blt_total⟩
+
+/-! ## the inner-node containers of the radix tree (node4 / node16 / node48 / node256) -/
+
+/-- Any sequence of `addChild` calls with distinct bytes on an empty node4 — across the growth steps 4 → 16 → 48 → 256 — yields
+    a node in which `findChild` finds exactly the inserted children (linear scan, binary search, slot index or direct table,
+    whichever the node kind uses), that holds as many children as were inserted, whose kind is determined by that count
+    (≤ 4, ≤ 16, ≤ 48, more), and whose children the iterator visits in strictly ascending byte order, each exactly once. -/
+theorem artnode_insert_lookup {χ : Type} (l : List (UInt8 × χ)) (hnd : (l.map (·.1)).Nodup) :
+    (∀ c, (ArtNode.build l).findChild c = ArtNode.assoc c l) ∧
+    (ArtNode.build l).num = l.length ∧
+    (ArtNode.build l).kind = ArtNode.kindFor l.length ∧
+    (∀ c x, (c, x) ∈ (ArtNode.build l).children ↔ (ArtNode.build l).findChild c = some x) ∧
+    (ArtNode.build l).children.Pairwise (fun a b => a.1 < b.1) := by
+  obtain ⟨hw, hf, hn⟩ := ArtNode.build_spec l hnd
+  obtain ⟨hc1, hc2⟩ := ArtNode.children_spec _ hw
+  exact ⟨hf, hn, ArtNode.build_kind l hnd, hc1, hc2⟩
+
+/-- one `addChild` on any well-formed node: the new byte maps to the new child, nothing else changes, and the node grows to
+    the next kind exactly when it was full -/
+theorem artnode_addChild {χ : Type} (n : ArtNode.Node χ) (hw : n.WF) (c : UInt8) (x : χ) (hc : n.findChild c = none) :
+    (n.addChild c x).WF ∧ (∀ c', (n.addChild c x).findChild c' = (if c' = c then some x else n.findChild c')) ∧
+    (n.addChild c x).num = n.num + 1 ∧
+    (n.addChild c x).kind = (if n.num < ArtNode.capOf n then n.kind else ArtNode.nextKind n.kind) := by
+  obtain ⟨h1, h2⟩ := ArtNode.addChild_spec n hw c x hc
+  obtain ⟨h3, h4⟩ := ArtNode.addChild_kind_num n hw c x
+  exact ⟨h1, h2, h3, h4⟩
+
+/-- `replaceChild` (used when a leaf is expanded into a node and when a prefix is split) changes exactly the child of the given
+    byte; on an absent byte it is the "replace child failed" panic -/
+theorem artnode_replaceChild {χ : Type} (n : ArtNode.Node χ) (hw : n.WF) (c : UInt8) (x : χ) :
+    (n.findChild c = none → n.replaceChild c x = none) ∧
+    (∀ y, n.findChild c = some y → ∃ n', n.replaceChild c x = some n' ∧ n'.WF ∧
+      ∀ c', n'.findChild c' = (if c' = c then some x else n.findChild c')) :=
+  ArtNode.replaceChild_spec n hw c x
 
 /-! ## non-vacuity of the hypotheses -/
 
+example : (ArtNode.Node.empty : ArtNode.Node Nat).WF := ⟨by simp [ArtNode.SortedK], rfl, by simp [ArtNode.cap4]⟩
+example : ([(5, 1), (3, 2), (9, 3)] : List (UInt8 × Nat)).map (·.1) |>.Nodup := by decide
 example : Inv VLog.init := inv_init
 example : Inv (VLog.init.run [.set [1] [2] [], .staging, .set [1] [3, 4] [4], .checkpoint]).1 :=
   (run_refines inv_init _).2
